@@ -481,18 +481,18 @@ def build_test(ver, ob, model, func, job):
     body += g.decls
     body += lines
     body += snaps
-    rec = 'defer func() { if r := recover(); r != nil { fmt.Printf("GOVC-REPLAY panic: %v\\n", r); t.Fail() } }()'
+    rec = 'defer func() { if r := recover(); r != nil { fmt.Printf("GOVC-REPLAY panic: %v\\n", r); zzT.Fail() } }()'
     if nres:
         rtypes = [g.gotype(ver.prog.types[r["t"]]) for r in sig.get("results") or []]
         sigres = ", ".join("%s %s" % (n, ty) for n, ty in zip(["zr%d" % i for i in range(nres)], rtypes))
         body.append("%s := func() (%s) { %s; return %s(%s) }()" % (", ".join(rnames), sigres, rec, call, ", ".join(args)))
         for r in rnames:
             body.append("_ = %s" % r)
-        body.append("if t.Failed() { return }")
+        body.append("if zzT.Failed() { return }")
         body.append('fmt.Printf("GOVC-REPLAY results: %%.300s\\n", fmt.Sprint(%s))' % ", ".join(rnames))
     else:
         body.append("func() { %s; %s(%s) }()" % (rec, call, ", ".join(args)))
-        body.append("if t.Failed() { return }")
+        body.append("if zzT.Failed() { return }")
     if ob is not None and ob.kind == "alloc":
         g.imports.add("runtime")
         # wrap: measure bytes allocated by the call itself
@@ -500,12 +500,12 @@ def build_test(ver, ob, model, func, job):
             if line.startswith(", ".join(rnames) + " := func()") or line.startswith("func() { defer"):
                 body[k] = "var zzM0, zzM1 runtime.MemStats; runtime.GC(); runtime.ReadMemStats(&zzM0); " + line + "; runtime.ReadMemStats(&zzM1)"
         body.append('fmt.Printf("GOVC-REPLAY allocated-bytes: %d\\n", zzM1.TotalAlloc-zzM0.TotalAlloc)')
-        body.append('if zzM1.TotalAlloc-zzM0.TotalAlloc >= 1<<24 { fmt.Printf("GOVC-REPLAY allocation-exceeds-bound\\n"); t.Fail() }')
+        body.append('if zzM1.TotalAlloc-zzM0.TotalAlloc >= 1<<24 { fmt.Printf("GOVC-REPLAY allocation-exceeds-bound\\n"); zzT.Fail() }')
     if clause_go:
         body.append('defer func() { if r := recover(); r != nil { fmt.Printf("GOVC-REPLAY clause-evaluation-panic: %v\\n", r) } }()')
         body.append("ok := %s" % clause_go)
         body.append('fmt.Printf("GOVC-REPLAY clause-holds: %v\\n", ok)')
-        body.append("if !ok { t.Fail() }")
+        body.append("if !ok { zzT.Fail() }")
     else:
         body.append('fmt.Printf("GOVC-REPLAY returned-normally\\n")')
     g.imports |= {"fmt", "testing"}
@@ -513,10 +513,10 @@ def build_test(ver, ob, model, func, job):
     if g.multi is not None:
         ty, cands = g.multi
         inner = "\n\t\t".join(body)
-        src = ("package %s\n\nimport (\n%s\n)\n\nfunc TestZZGovcReplay(t *testing.T) {\n\tfor ci, zzCand := range []%s{%s} {\n\t\t_ = ci\n"
+        src = ("package %s\n\nimport (\n%s\n)\n\nfunc TestZZGovcReplay(zzT *testing.T) {\n\tfor ci, zzCand := range []%s{%s} {\n\t\t_ = ci\n"
                "\t\tfunc() {\n\t\t%s\n\t\t}()\n\t}\n}\n") % (func.pkg.name, imps, ty, ", ".join(cands), inner)
         return src
-    src = "package %s\n\nimport (\n%s\n)\n\nfunc TestZZGovcReplay(t *testing.T) {\n\t%s\n}\n" % (
+    src = "package %s\n\nimport (\n%s\n)\n\nfunc TestZZGovcReplay(zzT *testing.T) {\n\t%s\n}\n" % (
         func.pkg.name, imps, "\n\t".join(body))
     return src
 
